@@ -177,14 +177,23 @@ CLAIMS = {
                 "— both directions of every conditional jump, any number of loop iterations, no bound on the run — the next "
                 "instruction does not pop an empty stack, its jump has an operand and lands in [0,size], its block.pop / "
                 "fstr.block.pop has a matching push and the dice / annotation / pool-dice state it uses was set up earlier; "
-                "same_open_blocks: one program point is always reached with the same numbers of open blocks and holes. The verifier "
-                "(plus: annotation spans lie inside the body's own text) is run on the real compiler's output (hook VerifDumpCode) "
+                "same_open_blocks: one program point is always reached with the same numbers of open blocks and holes. "
+                "exec_refines_skeleton (DS/Proofs/ExecSkel.lean, one lemma per opcode, all 70): whenever the skeleton step is defined "
+                "at a frame's skeleton state, the model VM's exec — for every heap, configuration, operand values and outcome of the "
+                "value-level computation, sub-VM results included — does not end in a structural panic (16 sites: empty-stack pop, "
+                "store/dice/annotation/pool state nobody set up, block or hole pop without push, jump without operand or to a "
+                "negative address) and a continuing exec lands in one of the skeleton's successors with the same code; "
+                "verified_code_runs_clean: hence the dispatch loop started anywhere reachable in verified code never reports a "
+                "structural fault, for any number of dispatches (compositional in the sub-VM runs). The verifier "
+                "(plus: annotation spans lie inside the body's own text and each covers exactly one term of it) is run on the real compiler's output (hook VerifDumpCode) "
                 "for every accepted input — main body and every nested function/computed body — over structural corpora x "
-                "rejected tails, generated, truncated, mutated and adversarial programs. The skeleton is tied to the model VM by a "
-                "run-time cross-check on every dispatch (skel stream) and the model VM to rollvm.go by the vm stream. One defect "
-                "found this way was repaired (break/continue inside if); the emit-then-fail leak is a known finding.",
-        "note": TB + "The per-opcode effect table kindOf is validated against the model VM's exec by the D1/D2 cross-check on every "
-                     "dispatch of every generated program, not yet proved for all frames. The verifier is conservative: it demands "
+                "rejected tails, generated, truncated, mutated and adversarial programs. The model VM is tied to rollvm.go by the vm "
+                "stream (and the skeleton is additionally cross-checked against it on every dispatch, skel stream). Two defects "
+                "found this way were repaired (break/continue inside if; break inside a stored body); the emit-then-fail leak is a "
+                "known finding.",
+        "note": TB + "verified_code_runs_clean is compositional: it assumes the sub-VM runs a body triggers report no structural fault "
+                     "(each is a run of another verified body); a global induction over the heap of stored bodies is not carried out. "
+                     "The verifier is conservative: it demands "
                      "proper nesting of blocks and template holes, which the VM itself (two separate stacks) does not need.",
         "technique": "Lean 4 soundness theorem for a bytecode verifier (abstract interpretation, all paths) run on the compiler's real output + skeleton/VM cross-check streams",
     },
